@@ -95,6 +95,13 @@ type Analysis struct {
 	badGid      bool
 	initGids    map[int64]bool
 	submitTx    map[int]bool
+	log         []Event
+	confOps     []confOp // every MarkAsConfirmed (tx -1: a hash no transaction has)
+}
+
+type confOp struct {
+	tx        int
+	call, ret int64
 }
 
 type bcastOp struct {
@@ -109,7 +116,7 @@ type bcastOp struct {
 func Analyze(sp *Spec, log []Event) *Analysis {
 	n := len(sp.Txs)
 	a := &Analysis{sp: sp, adds: make([][]span, n), rems: make([][]span, n),
-		bcast: map[int]*bcastOp{}, submitTx: map[int]bool{}}
+		bcast: map[int]*bcastOp{}, submitTx: map[int]bool{}, log: log}
 	rounds := map[int64]*Round{}
 	trigs := map[int]*Trig{}
 	confCall := map[int]int64{}
@@ -242,9 +249,11 @@ func Analyze(sp *Spec, log []Event) *Analysis {
 		}
 		_ = id
 		a.handlerMsgs = append(a.handlerMsgs, [2]int64{c, ret})
+		a.confOps = append(a.confOps, confOp{tx: -1, call: c, ret: ret})
 	}
 	for _, id := range cids {
 		a.handlerMsgs = append(a.handlerMsgs, [2]int64{confCall[id], confRet[id]})
+		a.confOps = append(a.confOps, confOp{tx: confTx[id], call: confCall[id], ret: confRet[id]})
 		s := span{lo: confCall[id] * 2, hi: inf, sure: true, round: -1,
 			src: fmt.Sprintf("markasconfirmed#%d", id)}
 		if r, ok := confRet[id]; ok {
@@ -523,6 +532,14 @@ type Stats struct {
 	DupInRound                               int
 	BroadcastRets                            int
 	StoppedRets                              int
+
+	// busy-handler windows (busy.go)
+	BusyWindows, BusyJudged   int
+	BusyIntervals, BusyRounds int // timers fired / rounds started inside windows
+	BusyCalls                 int // unrelated calls answered inside the timer chains
+	BusyWatched               int
+	BusyRoundsWithWatched     int      // sum over windows of min over watched tx of rounds containing it
+	BusyMargins               [][2]int // per judged window: {rounds containing every watched tx, timers}
 }
 
 // Check applies the reference model to the analysed history.
@@ -754,6 +771,11 @@ func (a *Analysis) Check() (fs []Finding, incon []string, st Stats) {
 			}
 		}
 	}
+
+	// (C') interval ticks while the handler is busy with unrelated calls.
+	bf, bi := a.checkBusy(a.log, &st)
+	fs = append(fs, bf...)
+	incon = append(incon, bi...)
 
 	// (D) nothing after Stop returned.
 	if a.StopRet != 0 {
